@@ -2,12 +2,15 @@
 import ast
 
 from .. import cfg as cfgmod
-from ..mutate import Mutant, in_func, delete_stmt
+from ..mutate import Mutant, in_func, delete_stmt, rename_local
 from ..report import AnalysisError
 from ..srcmodel import unparse, norm, walk_no_nested, calls_in
 from .common import is_method_call, cfg_of, get_kw, recv_of, name_defs, find_stmt_node
 from . import pathrules as pr
 from . import containers as ct
+from . import tr
+from .. import pathbase
+from ..tracer import Tracer, callback_params
 
 PROP = 'C16'
 DECIDED = [
@@ -21,189 +24,305 @@ UNDECIDED = ['frame preservation and composition of several operators as data;',
 PREMERGE_EXEMPT = {'ClearNode.ayns.on_premerge_impl': 'returns the node it just emptied; self-merge of an empty container is a no-op'}
 
 
+FETCH = ('get_node', 'remove_node', 'get_first_not_missing_node')
+PNI = set(pathbase.NI) | {'extend', 'append', '_validate_index', 'map_nodes'}
+
+
+def _premerge_paths(repo, fi):
+    return tr.paths_of(repo, fi, no_inline=PNI, follow_exceptions=True)
+
+
+def _fetch_events(p):
+    return [e for e in p.events if e.kind == 'call' and e.attr in FETCH and e.recv is not None and e.recv.text in ('into.ayns', 'into')]
+
+
 def r1(repo, run):
+    """on every path of a premerge implementation that returns a node fetched from the accumulated tree, the node has
+    been detached from that tree at the same path (or emptied: !clear)"""
     n = 0
     for fi in repo.cha('on_premerge_impl', ayns=True):
         if 'into' not in fi.params():
             continue
-        g = cfg_of(fi)
-        fetched = {}
-        for s in walk_no_nested(fi.node):
-            if isinstance(s, ast.Assign) and isinstance(s.targets[0], ast.Name) and isinstance(s.value, ast.Call) and is_method_call(s.value, recv='into', member=('get_node', 'remove_node', 'get_first_not_missing_node'), ayns=True):
-                fetched[s.targets[0].id] = s.value
-        for r in walk_no_nested(fi.node):
-            if isinstance(r, ast.Return) and isinstance(r.value, ast.Name) and r.value.id in fetched:
-                n += 1
-                src = fetched[r.value.id]
-                where = (fi.file, r.lineno, fi.qualname)
-                if src.func.attr == 'remove_node':
-                    run.ok('C16.R1', where, 'return %s  [%s]' % (r.value.id, unparse(src)), 'obtained by detaching it')
-                    continue
-                if fi.qualname in PREMERGE_EXEMPT:
-                    run.ok('C16.R1', where, 'return %s  [%s]' % (r.value.id, unparse(src)), 'table: ' + PREMERGE_EXEMPT[fi.qualname])
-                    continue
-                node = [x for x in g.nodes if x.ast is r][0]
-                key = norm(src.args[0]) if src.args else None
-                seen, _ = cfgmod.must_have_seen(g, lambda c: is_method_call(c, recv='into', member='remove_node', ayns=True) and c.args and norm(c.args[0]) == key)
-                if seen[node.id]:
-                    run.ok('C16.R1', where, 'return %s  [%s]' % (r.value.id, unparse(src)), 'into.ayns.remove_node(%s) precedes on every path' % key)
-                else:
-                    run.violation('C16.R1', fi, 'return %s  [%s]' % (r.value.id, unparse(src)), 'a node still attached to the accumulated tree is returned for merging: it is then merged with itself (and emptied / duplicated)', node=r)
+        done = set()
+        for p in _premerge_paths(repo, fi):
+            if p.status != 'return' or p.ret is None:
+                continue
+            src = [e for e in _fetch_events(p) if e.result is not None and e.result.text == p.ret.text]
+            if not src:
+                continue
+            e = src[-1]
+            i = tr.index_of(p, e)
+            fin = tr.final_event(p)
+            key = e.args[0].text if e.args else None
+            construct = 'return <%s>' % e.callee[:80]
+            if e.attr == 'remove_node':
+                verdict = ('ok', 'obtained by detaching it')
+            elif any(x.kind == 'call' and x.attr == 'remove_node' and x.recv is not None and x.recv.text in ('into.ayns', 'into') and x.args and x.args[0].text == key for x in p.events):
+                verdict = ('ok', 'into.ayns.remove_node(%s) precedes on this path' % key)
+            elif any(x.kind == 'call' and x.attr == 'clear' and x.recv is not None and x.recv.text == p.ret.text for x in p.events[i:]):
+                verdict = ('ok', 'the node was emptied first: self-merge of an empty container is a no-op (!clear)')
+            else:
+                verdict = ('bad', 'a node still attached to the accumulated tree is returned for merging: it is then merged with itself (and emptied / duplicated)')
+            k = (id(e.node), verdict)
+            if k in done:
+                continue
+            done.add(k)
+            n += 1
+            if verdict[0] == 'ok':
+                run.ok('C16.R1', tr.where(fi, fin), construct, verdict[1])
+            else:
+                run.violation('C16.R1', tr.where(fi, fin), construct, verdict[1] + ' [path: %s]' % tr.describe(p, 5))
     if n < 3:
         raise AnalysisError('C16.R1: expected >= 3 premerge returns of fetched nodes (append, extend, prev), found %d' % n)
+
+
+def _all_return(paths, fi, what):
+    rets = [p for p in paths if p.status == 'return']
+    if not rets:
+        raise AnalysisError('%s: no returning path' % fi.qualname)
+    return rets
 
 
 def r2(repo, run):
     base = repo.func('ComposedNode.ayns.remove_child')
     key = base.params()[1]
-    rets = [s for s in walk_no_nested(base.node) if isinstance(s, ast.Return)]
-    d = name_defs(base, norm(rets[0].value)) if rets and isinstance(rets[0].value, ast.Name) else []
-    src = d[0][1] if d else (rets[0].value if rets else None)
-    if not (isinstance(src, ast.Call) and norm(src.func) == 'self._children.pop' and norm(src.args[0]) == key):
-        run.violation('C16.R2', base, norm(rets[0]) if rets else 'remove_child', 'the generic remove_child does not return the child popped under the requested name')
+    bad = None
+    for p in _all_return(tr.paths_of(repo, base), base, 'remove_child'):
+        pops = [e for e in p.events if tr.is_call(e, attr='pop', recv='self._children') and e.args and e.args[0].text == key]
+        if not pops or p.ret is None or p.ret.text != pops[0].result.text:
+            bad = p
+    if bad is not None:
+        run.violation('C16.R2', base, 'return %s' % (bad.ret.text[:60] if bad.ret is not None else None), 'the generic remove_child does not return the child popped under the requested name')
     else:
         run.ok('C16.R2', base, 'return self._children.pop(%s, None)' % key)
     dd = repo.func('ConfigDict._del')
-    rets = [s for s in walk_no_nested(dd.node) if isinstance(s, ast.Return)]
-    d = name_defs(dd, norm(rets[0].value)) if rets and isinstance(rets[0].value, ast.Name) else []
-    if not d or not is_method_call(d[0][1], recv='ComposedNode', member='remove_child', ayns=True) or norm(d[0][1].args[1]) != dd.params()[1]:
-        run.violation('C16.R2', dd, norm(rets[0]) if rets else '_del', 'ConfigDict._del does not return the child removed under the requested name')
+    bad = None
+    for p in _all_return(tr.paths_of(repo, dd, no_inline={'remove_child'}), dd, '_del'):
+        rm = [e for e in p.events if e.kind == 'call' and e.attr == 'remove_child' and e.args and e.args[-1].text == dd.params()[1]]
+        if not rm or p.ret is None or p.ret.text != rm[0].result.text:
+            bad = p
+    if bad is not None:
+        run.violation('C16.R2', dd, 'return %s' % (bad.ret.text[:60] if bad.ret is not None else None), 'ConfigDict._del does not return the child removed under the requested name')
     else:
-        run.ok('C16.R2', dd, 'ret = ComposedNode.ayns.remove_child(self, %s); ...; return ret' % dd.params()[1])
+        run.ok('C16.R2', dd, 'returns ComposedNode.ayns.remove_child(self, %s)' % dd.params()[1])
     ld = repo.func('ConfigList._del')
     idx = ld.params()[1]
-    rets = [s for s in walk_no_nested(ld.node) if isinstance(s, ast.Return)]
-    if len(rets) != 1 or not isinstance(rets[0].value, ast.Name):
-        raise AnalysisError('ConfigList._del: single `return <name>` not recognised')
-    d = name_defs(ld, rets[0].value.id)
-    if len(d) != 1:
-        raise AnalysisError('ConfigList._del: returned name has %d definitions' % len(d))
-    src, st = d[0][1], d[0][2]
-    first_mut = min([s.lineno for s in walk_no_nested(ld.node) if isinstance(s, (ast.For, ast.Delete)) or (isinstance(s, ast.Expr) and isinstance(s.value, ast.Call) and norm(s.value.func) in ('list.__delitem__', 'ComposedNode.ayns.remove_child', 'list.pop'))] or [10 ** 9])
-    reads_req = norm(src) in ('list.__getitem__(self, %s)' % idx, 'self[%s]' % idx, 'self._children[%s]' % idx, 'self._get(%s)' % idx)
-    if reads_req and st.lineno < first_mut:
-        run.ok('C16.R2', (ld.file, st.lineno, ld.qualname), norm(st), 'element at the requested index read before the elements are shifted')
-    elif isinstance(src, ast.Call) and is_method_call(src, recv='ComposedNode', member='remove_child', ayns=True) and norm(src.args[1]) != idx:
-        run.violation('C16.R2', ld, norm(st), 'returns the child stored under %s, not the one at the requested index %s: after shifting the elements down that is the former last element (`q: !prev l[0]` moves the wrong element)' % (norm(src.args[1]), idx), node=st)
-    elif isinstance(src, ast.Call) and (is_method_call(src, recv='ComposedNode', member='remove_child', ayns=True) or norm(src.func) in ('list.pop', 'self._children.pop')) and norm(src.args[-1]) == idx and not any(isinstance(s, ast.For) for s in walk_no_nested(ld.node)):
-        run.ok('C16.R2', (ld.file, st.lineno, ld.qualname), norm(st), 'removes and returns the element at the requested index directly')
-    else:
-        run.violation('C16.R2', ld, norm(st), 'the returned value is not a pre-mutation read of the element at the requested index', node=st)
+    lp = _all_return(tr.paths_of(repo, ld, no_inline={'remove_child', '_validate_index', '_get', '__getitem__'}), ld, '_del')
+    verdicts = set()
+    for p in lp:
+        IDX = [idx] + [e.result.text for e in p.events if e.kind == 'call' and e.attr == '_validate_index' and e.args and e.args[0].text == idx]
+        ret = p.ret.text if p.ret is not None else 'None'
+        reads = ['list.__getitem__(self, %s)' % i for i in IDX] + ['self[%s]' % i for i in IDX] + ['self._children[%s]' % i for i in IDX] + ['self._get(%s)' % i for i in IDX]
+        muts = [j for j, e in enumerate(p.events) if (e.kind == 'store' and e.target.startswith(('self[', 'del self'))) or
+                (e.kind == 'call' and (e.callee in ('list.__delitem__', 'list.pop', 'list.__setitem__', 'self._children.pop') or e.attr == 'remove_child'))]
+        shifting = any(e.kind == 'store' and e.target.startswith('self[') for e in p.events)
+        if ret in reads:
+            rd = [j for j, e in enumerate(p.events) if (e.kind in ('call', 'subscr')) and e.result is not None and e.result.text == ret]
+            if rd and muts and rd[0] > muts[0]:
+                verdicts.add(('bad', 'the element at the requested index is read after the elements were shifted'))
+            else:
+                verdicts.add(('ok', 'element at the requested index read before the elements are shifted'))
+            continue
+        rm = [e for e in p.events if e.kind == 'call' and (e.attr == 'remove_child' or e.callee in ('list.pop', 'self._children.pop')) and e.result is not None and e.result.text == ret]
+        if rm:
+            a = rm[0].args[-1].text if rm[0].args else None
+            if a in IDX and not shifting:
+                verdicts.add(('ok', 'removes and returns the element at the requested index directly'))
+            elif a not in IDX:
+                verdicts.add(('bad', 'returns the child stored under %s, not the one at the requested index %s: after shifting the elements down that is the former last element (`q: !prev l[0]` moves the wrong element)' % (a, idx)))
+            else:
+                verdicts.add(('bad', 'the returned value is not a pre-mutation read of the element at the requested index'))
+            continue
+        if ret == 'None':
+            verdicts.add(('bad', 'ConfigList._del returns nothing: remove_child / remove_node lose the detached element'))
+        else:
+            raise AnalysisError('ConfigList._del: returned value %s not recognised' % ret[:60])
+    for v in sorted(verdicts):
+        if v[0] == 'ok':
+            run.ok('C16.R2', ld, 'ConfigList._del return value', v[1])
+        else:
+            run.violation('C16.R2', ld, 'ConfigList._del return value', v[1])
     for q in ('ConfigDict.ayns.remove_child', 'ConfigList.ayns.remove_child'):
         f = repo.func(q)
-        if [norm(s) for s in f.node.body] != ['return self._del(%s)' % f.params()[1]]:
-            run.violation('C16.R2', f, norm(f.node.body[-1]), '%s does not return self._del(<name>)' % q)
-        else:
+        okk = True
+        for p in _all_return(tr.paths_of(repo, f, no_inline={'_del'}), f, 'remove_child'):
+            d = [e for e in p.events if tr.is_call(e, attr='_del', recv='self') and e.args and e.args[0].text == f.params()[1]]
+            if not d or p.ret is None or p.ret.text != d[0].result.text:
+                okk = False
+        if okk:
             run.ok('C16.R2', f, 'return self._del(%s)' % f.params()[1])
-    rn = repo.func('ComposedNode.ayns.remove_node')
-    inner = rn.nested()
-    call = [c for c in calls_in(rn.node) if norm(c.func) == 'ComposedNode.ayns._remove_node']
-    if len(call) != 1 or len(call[0].args) < 2:
-        raise AnalysisError('remove_node: delegation to _remove_node not recognised')
-    fnarg = call[0].args[1]
-    if isinstance(fnarg, ast.Name) and fnarg.id in inner:
-        cb = inner[fnarg.id]
-        body = [norm(s) for s in cb.node.body]
-        p0, p1 = cb.params()[0], cb.params()[1]
-        if body == ['return %s.ayns.remove_child(%s)' % (p0, p1)]:
-            run.ok('C16.R2', cb, body[0], 'dynamic dispatch to the parent\'s own remove_child (updates both stores of dict/list parents)')
         else:
-            run.violation('C16.R2', cb, ' ; '.join(body), 'the removal callback does not dispatch to the parent\'s own remove_child')
-    else:
-        run.violation('C16.R2', rn, unparse(call[0]), 'remove_node removes through %s: an explicit (base-class) function bypasses ConfigDict/ConfigList.remove_child, leaving the detached child in the built-in storage of its parent' % norm(fnarg), node=call[0])
-    rmn = repo.func('ComposedNode.ayns._remove_node')
-    last = rmn.node.body[-1]
-    if norm(last) != 'return remove_fn(parent, name)':
-        raise AnalysisError('_remove_node: `return remove_fn(parent, name)` not recognised')
-    run.ok('C16.R2', rmn, norm(last), 'removal result handed back unchanged')
+            run.violation('C16.R2', f, q, '%s does not return self._del(<name>)' % q)
+    # remove_node: the removal is dispatched to the parent's own remove_child and its result is handed back
+    rn = repo.func('ComposedNode.ayns.remove_node')
+    rp = tr.paths_of(repo, rn, no_inline={'get_node', 'remove_child'}, follow_exceptions=False)
+    n = 0
+    verdicts = set()
+    for p in rp:
+        gets = [e for e in p.events if e.kind == 'call' and e.attr == 'get_node']
+        rms = [e for e in p.events if e.kind == 'call' and e.attr == 'remove_child']
+        if p.status != 'return':
+            continue
+        if not rms:
+            if gets and (tr.fact(p, gets[0].result.text + ' is None', True)):
+                continue
+            raise AnalysisError('remove_node: a completing path without a removal (%s)' % tr.describe(p, 4))
+        n += 1
+        e = rms[-1]
+        N = gets[0].result.text if gets else None
+        recv = e.recv.text if e.recv is not None else ''
+        if N is None or not gets[0].kw.get('intermediate') or gets[0].kw['intermediate'].const is not True:
+            raise AnalysisError('remove_node: lookup of the chain of nodes (get_node(..., intermediate=True)) not recognised')
+        if p.ret is None or p.ret.text != e.result.text:
+            verdicts.add(('bad', 'the removed child is not handed back to the caller'))
+        elif recv == '%s[-2][0].ayns' % N and e.args and e.args[0].text == '%s[-1][1]' % N:
+            verdicts.add(('ok', 'parent.ayns.remove_child(name): dynamic dispatch to the parent\'s own remove_child (updates both stores of dict/list parents)'))
+        elif recv.split('.')[0] in repo.classes and e.args and e.args[0].text == '%s[-2][0]' % N:
+            verdicts.add(('bad', 'remove_node removes through %s.remove_child: an explicit (base-class) function bypasses ConfigDict/ConfigList.remove_child, leaving the detached child in the built-in storage of its parent' % recv))
+        elif N in recv:
+            verdicts.add(('bad', 'the removal is applied to %s with %s, not to the parent of the addressed node with its name' % (recv[:60], e.args[0].text[:40] if e.args else None)))
+        else:
+            raise AnalysisError('remove_node: removal call %s not recognised' % e.callee[:80])
+    if not n:
+        raise AnalysisError('remove_node: no removing path')
+    for v in sorted(verdicts):
+        (run.ok if v[0] == 'ok' else run.violation)('C16.R2', rn, 'remove_node dispatch', v[1])
 
 
 def r3(repo, run):
     for q, missing_raises in (('AppendNode.ayns.on_premerge_impl', True), ('ExtendNode.ayns.on_premerge_impl', False)):
         fi = repo.func(q)
-        exts = [c for c in calls_in(fi.node) if isinstance(c.func, ast.Attribute) and c.func.attr == 'extend']
-        if len(exts) != 1:
-            raise AnalysisError('%s: single <node>.extend(...) not recognised' % q)
-        c = exts[0]
-        recv = norm(c.func.value)
-        d = name_defs(fi, recv)
-        from_into = d and isinstance(d[0][1], ast.Call) and is_method_call(d[0][1], recv='into', ayns=True)
-        probs = []
-        if not from_into:
-            probs.append('receiver %s of extend is not the node fetched from the accumulated tree' % recv)
-        if len(c.args) != 1 or norm(c.args[0]) != 'self':
-            probs.append('argument of extend is %s, not the appended list itself (elements filtered, reordered or copied selectively)' % (norm(c.args[0]) if c.args else None))
-        rets = [r for r in walk_no_nested(fi.node) if isinstance(r, ast.Return) and r.lineno > c.lineno]
-        if not rets or norm(rets[0].value) != recv:
-            probs.append('the grown older node is not what gets returned')
-        if probs:
-            run.violation('C16.R3', fi, unparse(c), '; '.join(probs), node=c)
-        else:
-            run.ok('C16.R3', (fi.file, c.lineno, fi.qualname), unparse(c), 'older list grows by the new elements in order; it is returned')
-        # into is None -> plain list
-        first = [s for s in fi.node.body if isinstance(s, ast.If) and norm(s.test) == 'into is None']
-        if not first or norm(first[0].body[-1]) != 'return ConfigList(self)':
-            run.violation('C16.R3', fi, 'if into is None', 'first-stage %s does not become a plain ConfigList(self)' % fi.cls.name)
-        if missing_raises:
-            g = [s for s in walk_no_nested(fi.node) if isinstance(s, ast.If) and norm(s.test) == '%s is None' % recv and any(isinstance(b, ast.Raise) for b in s.body)]
-            if not g or g[0].lineno > c.lineno:
-                run.violation('C16.R3', fi, 'missing target of !append', '!append does not fail when there is no previous list at its path')
+        paths = _premerge_paths(repo, fi)
+        verdicts = set()
+        n_ext = 0
+        for p in paths:
+            first = tr.fact(p, 'into is None', True)
+            fetched = [e.result.text for e in _fetch_events(p)]
+            exts = [e for e in p.events if e.kind == 'call' and e.attr == 'extend']
+            ret = p.ret.text if p.ret is not None else None
+            if first:
+                if p.status != 'return' or ret != 'ConfigList(self)':
+                    verdicts.add(('bad', 'first-stage %s does not become a plain ConfigList(self)' % fi.cls.name))
+                continue
+            for e in exts:
+                n_ext += 1
+                recv = e.recv.text if e.recv is not None else ''
+                pr_ = []
+                if recv not in fetched:
+                    pr_.append('receiver %s of extend is not the node fetched from the accumulated tree' % recv[:50])
+                if len(e.args) != 1 or e.args[0].text != 'self':
+                    pr_.append('argument of extend is %s, not the appended list itself (elements filtered, reordered or copied selectively)' % (e.args[0].text[:60] if e.args else None))
+                if p.status == 'return' and ret != recv:
+                    pr_.append('the grown older node is not what gets returned')
+                verdicts.add(('bad', '; '.join(pr_)) if pr_ else ('ok', 'older list grows by the new elements in order; it is returned'))
+            missing = [f for f in fetched if tr.fact(p, f + ' is None', True)] or [t for t, pol in p.facts if t.startswith('exception:') and 'KeyError' in t and pol]
+            if missing_raises:
+                if missing and p.status != 'raise':
+                    verdicts.add(('bad', '!append does not fail when there is no previous list at its path'))
+                elif missing:
+                    verdicts.add(('ok', 'missing target: raises'))
             else:
-                run.ok('C16.R3', (fi.file, g[0].lineno, fi.qualname), 'if %s is None: raise KeyError' % recv)
-        else:
-            tr = [s for s in walk_no_nested(fi.node) if isinstance(s, ast.Try)]
-            okf = tr and any(h.type is not None and 'KeyError' in norm(h.type) and norm(h.body[-1]) == 'return ConfigList(self)' for h in tr[0].handlers)
-            fall = norm(fi.node.body[-1]) == 'return ConfigList(self)'
-            guard = [s for s in walk_no_nested(fi.node) if isinstance(s, ast.If) and norm(s.test) == "hasattr(%s, 'extend')" % recv]
-            if not okf or not fall or not guard:
-                run.violation('C16.R3', fi, '!extend fallbacks', '!extend does not silently become ConfigList(self) when the target is missing (KeyError) or cannot be extended')
-            else:
-                run.ok('C16.R3', (fi.file, tr[0].lineno, fi.qualname), 'except KeyError: return ConfigList(self); no extend(): return ConfigList(self)')
+                unext = [f for f in fetched if tr.fact(p, "hasattr(%s, 'extend')" % f, False)]
+                if (missing or unext) and not exts:
+                    if p.status != 'return' or ret != 'ConfigList(self)':
+                        verdicts.add(('bad', '!extend does not silently become ConfigList(self) when the target is missing (KeyError) or cannot be extended'))
+                    else:
+                        verdicts.add(('ok', 'missing / non-extendable target: plain ConfigList(self)'))
+            if p.status == 'return' and not exts and not first and not missing and not (not missing_raises and [f for f in fetched if tr.fact(p, "hasattr(%s, 'extend')" % f, False)]):
+                verdicts.add(('bad', 'a path returns %s without growing the older list [%s]' % (ret[:40] if ret else None, tr.describe(p, 4))))
+        if not n_ext:
+            raise AnalysisError('%s: <node>.extend(...) not recognised' % q)
+        if missing_raises and not any(v == ('ok', 'missing target: raises') for v in verdicts) and not any(v[0] == 'bad' for v in verdicts):
+            verdicts.add(('bad', '!append does not fail when there is no previous list at its path'))
+        if not missing_raises and not any(v[1].startswith('missing / non-extendable') for v in verdicts) and not any(v[0] == 'bad' for v in verdicts):
+            verdicts.add(('bad', '!extend does not silently become ConfigList(self) when the target is missing (KeyError) or cannot be extended'))
+        for v in sorted(verdicts):
+            (run.ok if v[0] == 'ok' else run.violation)('C16.R3', fi, fi.cls.name + ' premerge', v[1])
     pr.typed_lookups(repo, run, 'C16.R3', only={'AppendNode.ayns.on_premerge_impl', 'ExtendNode.ayns.on_premerge_impl', 'PrevNode.ayns.on_premerge_impl', 'ClearNode.ayns.on_premerge_impl'})
     pv = repo.func('PrevNode.ayns.on_premerge_impl')
-    g = [s for s in walk_no_nested(pv.node) if isinstance(s, ast.If) and norm(s.test).endswith('is None') and any(isinstance(b, ast.Raise) for b in s.body)]
-    if not g:
+    okv = None
+    for p in _premerge_paths(repo, pv):
+        for f in [e.result.text for e in _fetch_events(p)]:
+            if tr.fact(p, f + ' is None', True):
+                okv = (p.status == 'raise') if okv is not False else False
+    if not okv:
         run.violation('C16.R3', pv, '!prev of a missing path', '!prev does not fail when the referenced path does not exist')
     else:
-        run.ok('C16.R3', (pv.file, g[0].lineno, pv.qualname), 'if node is None: raise KeyError')
+        run.ok('C16.R3', pv, 'missing target: raises KeyError')
 
 
 def r4(repo, run):
     fi = repo.func('ConfigList.extend')
-    body = [s for s in fi.node.body if not (isinstance(s, ast.Expr) and isinstance(s.value, ast.Constant))]
-    ok = len(body) == 1 and isinstance(body[0], ast.For) and norm(body[0].iter) == fi.params()[1] and len(body[0].body) == 1 and norm(body[0].body[0]) == 'self.append(%s)' % norm(body[0].target)
-    if ok:
-        run.ok('C16.R4', fi, norm(body[0]), 'every element appended in iteration order')
-    else:
-        run.violation('C16.R4', fi, norm(fi.node)[:160], 'extend is not `for val in other: self.append(val)` (elements may be dropped, reordered or bypass the child map)')
+    src = fi.params()[1]
+    paths = tr.paths_of(repo, fi, no_inline={'append', '_set', 'set_child'}, follow_exceptions=False)
+    verdict = None
+    for p in paths:
+        apps = [e for e in p.events if e.kind == 'call' and e.in_loop and (tr.is_call(e, attr='append', recv='self') or e.callee == 'list.append')]
+        if not any(e.in_loop for e in p.events):
+            continue
+        if len(apps) != 1:
+            raise AnalysisError('ConfigList.extend: one append per element not recognised')
+        a = apps[0]
+        if a.callee == 'list.append':
+            verdict = ('bad', 'elements are appended to the built-in storage only (the child map is bypassed)')
+        elif a.args and a.args[0].text in ('each(%s)' % src, 'each(iter(%s))' % src, 'each(list(%s))' % src):
+            verdict = verdict or ('ok', 'every element appended in iteration order')
+        elif a.args and any(k in a.args[0].text for k in ('reversed', 'sorted', 'set(', '[1:]', '[:-1]', 'filter')):
+            verdict = ('bad', 'extend appends %s (elements may be dropped or reordered)' % a.args[0].text[:60])
+        else:
+            raise AnalysisError('ConfigList.extend: appended value %s not recognised' % (a.args[0].text[:60] if a.args else None))
+        if p.facts and any('comprehension-filter' in t or src in t for t, _ in p.facts if 'each(' in t):
+            verdict = ('bad', 'elements are appended conditionally (%s)' % tr.describe(p, 3))
+    if verdict is None:
+        raise AnalysisError('ConfigList.extend: loop of append not recognised')
+    (run.ok if verdict[0] == 'ok' else run.violation)('C16.R4', fi, 'for val in %s: self.append(val)' % src, verdict[1] if verdict[0] == 'ok' else 'extend is not `for val in other: self.append(val)`: ' + verdict[1])
     ct.pairing(repo, run, 'C16.R4', classes=('ConfigList',), ops=['append', 'extend'])
 
 
 def r5(repo, run):
     fi = repo.func('ComposedNode.ayns.on_premerge_impl')
-    body = [s for s in fi.node.body if not (isinstance(s, ast.Expr) and isinstance(s.value, ast.Constant))]
     path, into = fi.params()[1], fi.params()[2]
-    if len(body) != 1 or not isinstance(body[0], ast.Return) or not is_method_call(body[0].value, recv='self', member='map_nodes', ayns=True):
-        extra = [norm(s)[:80] for s in body[:-1]]
-        run.violation('C16.R5', fi, ' ; '.join(extra) or norm(body[0])[:120], 'the container premerge is not an unconditional map over its children: operators (!append/!extend/!prev/!clear) below some containers are never pre-merged', node=body[0])
-        return
-    c = body[0].value
-    lam = c.args[0] if c.args else None
-    probs = []
-    if not isinstance(lam, ast.Lambda) or norm(lam.body) != '%s.ayns.on_premerge(%s, %s)' % (lam.args.args[1].arg, lam.args.args[0].arg, into):
-        probs.append('children are not pre-merged with child.ayns.on_premerge(child_path, into)')
-    kws = {k.arg: norm(k.value) for k in c.keywords}
-    if kws.get('prefix') != path:
-        probs.append('child paths are not prefixed with the container path')
-    if kws.get('leafs_only') != 'False' or kws.get('recurse') != 'False':
-        probs.append('map must visit every direct child itself (leafs_only=False, recurse=False); deeper levels are reached by each child\'s own on_premerge')
+    paths = tr.paths_of(repo, fi, no_inline=PNI, follow_exceptions=False)
+    probs = set()
+    n = 0
+    for p in paths:
+        if p.status != 'return':
+            continue
+        maps = [e for e in p.events if tr.is_call(e, attr='map_nodes', recv='self.ayns')]
+        if not maps:
+            if tr.fact(p, 'self._children', False) or tr.fact(p, 'len(self._children) == 0', True):
+                continue
+            probs.add('the container premerge is not an unconditional map over its children: operators (!append/!extend/!prev/!clear) below some containers are never pre-merged [path: %s]' % tr.describe(p, 4))
+            continue
+        n += 1
+        e = maps[0]
+        cb = e.args[0] if e.args else e.kw.get('map_fn')
+        if cb is None or cb.closure is None:
+            raise AnalysisError('on_premerge_impl: map callback not recognised')
+        t, cps = Tracer(repo, no_inline=PNI, follow_exceptions=False).trace_closure(cb)
+        cps_ = callback_params(t)
+        for q in cps:
+            want = '%s.ayns.on_premerge(%s, %s)' % (cps_[1], cps_[0], into)
+            if q.status != 'return' or q.ret is None or q.ret.text != want:
+                probs.add('children are not pre-merged with child.ayns.on_premerge(child_path, into) (callback returns %s)' % (q.ret.text[:60] if q.ret is not None else None))
+        pfx = e.kw.get('prefix')
+        if pfx is None or pfx.text != path:
+            probs.add('child paths are not prefixed with the container path')
+        lo, rec = e.kw.get('leafs_only'), e.kw.get('recurse')
+        if lo is None or lo.const is not False or rec is None or rec.const is not False:
+            probs.add('map must visit every direct child itself (leafs_only=False, recurse=False); deeper levels are reached by each child\'s own on_premerge')
+        if p.ret is None or p.ret.text != e.result.text:
+            probs.add('the result of the map is not returned')
+    if not n and not probs:
+        raise AnalysisError('on_premerge_impl: map over the children not recognised')
     if probs:
-        run.violation('C16.R5', fi, unparse(c)[:160], '; '.join(probs), node=c)
+        for pr_ in sorted(probs):
+            run.violation('C16.R5', fi, 'container premerge', pr_)
     else:
-        run.ok('C16.R5', fi, unparse(c)[:160], 'every child pre-merged at its own path')
+        run.ok('C16.R5', fi, 'self.ayns.map_nodes(child.on_premerge(child_path, into), prefix=path, leafs_only=False, recurse=False)', 'every child pre-merged at its own path')
     mn = repo.func('ComposedNode.ayns.map_nodes')
-    loops = [s for s in walk_no_nested(mn.node) if isinstance(s, ast.For) and norm(s.iter) == 'self.ayns.named_children()']
-    if not loops:
+    mp = tr.paths_of(repo, mn, no_inline={'named_children', 'set_child', 'map_nodes'}, follow_exceptions=False)
+    if not any(e.kind == 'call' and e.callee == 'self.ayns.named_children' for p in mp for e in p.events):
         raise AnalysisError('map_nodes does not iterate named_children()')
     run.ok('C16.R5', mn, 'map_nodes iterates self.ayns.named_children()')
 
@@ -231,5 +350,10 @@ def mutants(repo):
         Mutant('list-extend-reversed', lambda r: in_func(r, 'ConfigList.extend', "for val in other:", "for val in reversed(list(other)):"), ['C16.R4']),
         Mutant('premerge-skips-new-subtrees', lambda r: in_func(r, 'ComposedNode.ayns.on_premerge_impl', "            return self.ayns.map_nodes(lambda child_path, node: node.ayns.on_premerge(child_path, into)",
                "            if into is not None and path and into.ayns.get_node(path, incomplete=None) is None:\n                return self\n            return self.ayns.map_nodes(lambda child_path, node: node.ayns.on_premerge(child_path, into)"), ['C16.R5']),
-        Mutant('neutral-append-local-name', lambda r: in_func(r, 'AppendNode.ayns.on_premerge_impl', "node", "older", None), neutral=True),
+        Mutant('neutral-append-local-name', lambda r: rename_local(r, 'AppendNode.ayns.on_premerge_impl', "node", "older"), neutral=True),
+        Mutant('neutral-remove-node-callback-lambda', lambda r: in_func(r, 'ComposedNode.ayns.remove_node',
+               "            def remove_fn(node, component):\n                return node.ayns.remove_child(component)\n\n            return ComposedNode.ayns._remove_node(self, remove_fn, *path)",
+               "            return ComposedNode.ayns._remove_node(self, lambda parent, key: parent.ayns.remove_child(key), *path)"), neutral=True),
+        Mutant('clear-forgets-to-empty', lambda r: in_func(r, 'ClearNode.ayns.on_premerge_impl', "        node.clear()\n", ""), ['C16.R1']),
+        Mutant('extend-fallback-raises', lambda r: in_func(r, 'ExtendNode.ayns.on_premerge_impl', "        except KeyError:\n            return ConfigList(self)", "        except KeyError:\n            raise"), ['C16.R3']),
     ]
